@@ -214,7 +214,7 @@ func TestC01(t *testing.T) {
 		"format/content* never assert (documented deviation)",
 		"multipleOf removed from the schema when an instance holds a number >= 2^50 (the property's restriction to exact float arithmetic); integer-valued keywords are small and spelled without exponent",
 		"numbers are exactly representable in float64")
-	rapid.Check(t, propC01(rec))
+	rapid.Check(t, watched("C01", propC01(rec)))
 }
 
 func init() {
@@ -259,6 +259,7 @@ func propC01(rec *ev.Recorder) func(t *rapid.T) {
 			rec.ClassN("multipleOf-removed-by-construction", int64(n))
 		}
 		keywordHistogram(rec, c.Schema)
+		ev.SetCurrent("C01", c)
 		fl := checkSchemaCase(c, refmodel.D2020, rec)
 		if isHarnessFailure(fl) {
 			rec.Inconclusive("generator-or-model-error: " + fl.Msg)
